@@ -140,6 +140,17 @@ func runC09(c HistCase, o *run.Obs) error {
 }
 
 func enumC09(tier string, shard, nshards int, yield func(HistCase) bool) (bool, string) {
+	stopped := false
+	_, wideNote := enumWide(tier, shard, nshards, func(h HistCase) bool {
+		if !yield(h) {
+			stopped = true
+			return false
+		}
+		return true
+	})
+	if stopped {
+		return false, ""
+	}
 	exh, note := enumC04(tier, shard, nshards, func(c C04Case) bool {
 		// history A of the C04 enumeration (insert n+2 keys in every order, delete two), persisting after every op
 		var prog []core.Op
@@ -163,9 +174,9 @@ func enumC09(tier string, shard, nshards int, yield func(HistCase) bool) (bool, 
 		return yield(HistCase{Cfg: c.Cfg, Prog: prog})
 	})
 	if note != "" {
-		note = "C04's enumeration (history A), persisting and validating after every operation: " + note
+		note = "C04's enumeration (history A), persisting and validating after every operation: " + note + "; plus "
 	}
-	return exh, note
+	return exh, note + wideNote
 }
 
 func init() {
